@@ -31,6 +31,16 @@ fn block_on<F: Future>(f: F) -> F::Output {
   }
 }
 
+thread_local! {
+  /// which error kind injected faults carry: 0 = Unavailable, 1 = the store's "not found" kind
+  static FAULT_KIND: Cell<u8> = Cell::new(0);
+}
+fn key_err() -> KeyStorageError {
+  KeyStorageError::new(if FAULT_KIND.with(|k| k.get()) == 1 { KeyStorageErrorKind::KeyNotFound } else { KeyStorageErrorKind::Unavailable })
+}
+fn id_err() -> KeyIdStorageError {
+  KeyIdStorageError::new(if FAULT_KIND.with(|k| k.get()) == 1 { KeyIdStorageErrorKind::KeyIdNotFound } else { KeyIdStorageErrorKind::Unavailable })
+}
 /// fails the calls whose global occurrence number is in `fail`
 #[derive(Clone)]
 struct Faults {
@@ -54,7 +64,7 @@ struct FIds(KeyIdMemstore, Faults);
 impl JwkStorage for FKeys {
   async fn generate(&self, key_type: KeyType, alg: JwsAlgorithm) -> KeyStorageResult<JwkGenOutput> {
     if self.1.hit("generate") {
-      return Err(KeyStorageError::new(KeyStorageErrorKind::Unavailable));
+      return Err(key_err());
     }
     self.0.generate(key_type, alg).await
   }
@@ -66,13 +76,13 @@ impl JwkStorage for FKeys {
   }
   async fn delete(&self, key_id: &KeyId) -> KeyStorageResult<()> {
     if self.1.hit("delete") {
-      return Err(KeyStorageError::new(KeyStorageErrorKind::Unavailable));
+      return Err(key_err());
     }
     self.0.delete(key_id).await
   }
   async fn exists(&self, key_id: &KeyId) -> KeyStorageResult<bool> {
     if self.1.hit("exists") {
-      return Err(KeyStorageError::new(KeyStorageErrorKind::Unavailable));
+      return Err(key_err());
     }
     self.0.exists(key_id).await
   }
@@ -81,19 +91,19 @@ impl JwkStorage for FKeys {
 impl KeyIdStorage for FIds {
   async fn insert_key_id(&self, d: MethodDigest, k: KeyId) -> KeyIdStorageResult<()> {
     if self.1.hit("insert_key_id") {
-      return Err(KeyIdStorageError::new(KeyIdStorageErrorKind::Unavailable));
+      return Err(id_err());
     }
     self.0.insert_key_id(d, k).await
   }
   async fn get_key_id(&self, d: &MethodDigest) -> KeyIdStorageResult<KeyId> {
     if self.1.hit("get_key_id") {
-      return Err(KeyIdStorageError::new(KeyIdStorageErrorKind::Unavailable));
+      return Err(id_err());
     }
     self.0.get_key_id(d).await
   }
   async fn delete_key_id(&self, d: &MethodDigest) -> KeyIdStorageResult<()> {
     if self.1.hit("delete_key_id") {
-      return Err(KeyIdStorageError::new(KeyIdStorageErrorKind::Unavailable));
+      return Err(id_err());
     }
     self.0.delete_key_id(d).await
   }
@@ -104,6 +114,18 @@ fn snapshot(doc: &CoreDocument) -> String {
 }
 
 pub fn faults(cex: &Value) -> Result<String, String> {
+  for kind in [0u8, 1] {
+    FAULT_KIND.with(|k| k.set(kind));
+    let r = faults_with_kind(cex);
+    FAULT_KIND.with(|k| k.set(0));
+    if let Ok(msg) = r {
+      return Ok(format!("{} {msg}", if kind == 1 { "(faults reported as not-found)" } else { "" }));
+    }
+  }
+  Err("storage fault battery: all expectations met".to_owned())
+}
+
+fn faults_with_kind(cex: &Value) -> Result<String, String> {
   let only: Option<String> = cex.get("only").and_then(Value::as_str).map(str::to_owned);
   let r = no_panic(|| -> Vec<String> {
     let mut out = Vec::new();
@@ -118,6 +140,34 @@ pub fn faults(cex: &Value) -> Result<String, String> {
     {
       for scope in [MethodScope::VerificationMethod, MethodScope::authentication()] {
         for sched in &schedules {
+          // the requested fragment is already taken: the call fails in the document, not in a store; whatever it did to the
+          // stores before that point has to be undone, or the failed undo reported
+          {
+            let f2 = Faults { n: Rc::new(Cell::new(0)), fail: Rc::new(sched.clone()), log: Rc::new(Default::default()) };
+            let storage = Storage::new(FKeys(JwkMemStore::new(), f2.clone()), FIds(KeyIdMemstore::new(), f2.clone()));
+            let mut doc = CoreDocument::builder(Object::new()).id(did.clone()).build().unwrap();
+            let clean = Storage::new(JwkMemStore::new(), KeyIdMemstore::new());
+            block_on(doc.generate_method(&clean, JwkMemStore::ED25519_KEY_TYPE, JwsAlgorithm::EdDSA, Some("#k"), MethodScope::VerificationMethod)).unwrap();
+            let before = snapshot(&doc);
+            let res = block_on(doc.generate_method(&storage, JwkMemStore::ED25519_KEY_TYPE, JwsAlgorithm::EdDSA, Some("#k"), scope));
+            let trace = f2.log.borrow().join(",");
+            f2.n.set(100_000);
+            match &res {
+              Ok(_) => out.push(format!("[generate] taken fragment, schedule {sched:?} ({trace}): reported success")),
+              Err(JwkStorageDocumentError::UndoOperationFailed { .. }) => {}
+              Err(_) => {
+                if snapshot(&doc) != before {
+                  out.push(format!("[generate] taken fragment, schedule {sched:?} ({trace}): error returned but the document changed"));
+                }
+                if block_on(storage.key_storage().0.count()) != 0 {
+                  out.push(format!("[generate] taken fragment, schedule {sched:?} ({trace}): error returned but the generated key stays in the store"));
+                }
+                if block_on(storage.key_id_storage().0.count()) != 0 {
+                  out.push(format!("[generate] taken fragment, schedule {sched:?} ({trace}): error returned but a key id stays recorded"));
+                }
+              }
+            }
+          }
           // a fresh world: document with one pre-existing method (so that ordering is observable), empty stores
           let faults = Faults { n: Rc::new(Cell::new(1000)), fail: Rc::new(vec![]), log: Rc::new(Default::default()) };
           let storage = Storage::new(FKeys(JwkMemStore::new(), faults.clone()), FIds(KeyIdMemstore::new(), faults.clone()));
@@ -156,6 +206,9 @@ pub fn faults(cex: &Value) -> Result<String, String> {
               // no orphaned key: whatever was generated has been deleted again (asked of the underlying store directly)
               if block_on(storage.key_storage().0.count()) != 0 {
                 out.push(format!("[generate] schedule {sched:?} ({trace}): error returned but the generated key stays in the store"));
+              }
+              if block_on(storage.key_id_storage().0.count()) != 0 {
+                out.push(format!("[generate] schedule {sched:?} ({trace}): error returned but a key id stays recorded"));
               }
             }
           }
